@@ -634,12 +634,17 @@ class FactoryBattery:
                 bad("table-method-on-a-short-vector", {"exception": f"{type(e).__name__}: {str(e)[:120]}"})
             # two dimensions
             cm = battery.copula_model(2, "clayton")
-            grid2 = CTMCUniformGrid(h=0.1, model=cm)        # 9 x 9 states: every quadrant bucket holds several states of visible mass
+            from rpylib.grid.spatial import CTMCGrid
+            hh = 0.05
+            # 9 x 9 states: every quadrant bucket holds several states of visible mass; and a grid with a SINGLE state on the left
+            # of the origin (the buckets {left state} x {right states} are lines parallel to an axis but not on it)
+            grids2 = [("uniform 9x9", CTMCUniformGrid(h=0.1, model=cm)),
+                      ("one state on the left, four on the right", CTMCGrid(h=hh, origin_coordinate=1, axes=[np.array([-hh, 0.0, hh, 2 * hh, 3 * hh, 4 * hh]) for _ in range(2)]))]
             n2 = 20000
             u2 = (np.arange(n2) + 0.5) / n2
-            for meth in (SamplingMethod.INVERSION, SamplingMethod.BINARYSEARCHTREEADAPTED):
+            for (gname, grid2), meth in itertools.product(grids2, (SamplingMethod.INVERSION, SamplingMethod.BINARYSEARCHTREEADAPTED)):
                 ev += 1
-                info = {"model": "clayton copula of two HEM margins", "method": meth.name}
+                info = {"model": "clayton copula of two HEM margins", "method": meth.name, "grid": gname}
                 try:
                     from rpylib.process.markovchain.markovchainlevycopula import MarkovChainLevyCopula
                     p = MarkovChainLevyCopula(levy_copula_model=cm, grid=grid2, method=meth)
